@@ -27,8 +27,13 @@ P = {
  "C02": ("SM", "Theorems (Props/C02.v; SMP/Post, Offers): exact post-state of SETUP->WORKING (operation and machine get start=now, "
          "end=now+d with d the value sampled now, once), of WORKING->OUTAGE (end extended by exactly the longest active outage), of "
          "OUTAGE->IDLE (record DONE with end=now), outage lengths non-negative, and timed transitions are created only when due "
-         "(C02_not_early) - for all states/instances/oracles, one transition at a time. 'Completes exactly when due' over whole runs "
-         "relies on the clock invariant of C12 (proved) plus the event monitors ev_work/ev_due (monitored). " + TIE),
+         "(C02_not_early) - for all states/instances/oracles, one transition at a time. OVER WHOLE RUNS (SMP/Durations.v, "
+         "C02_durations_reachable_flex / _micro_states_flex): in every state and micro-state of every run on an instance with "
+         "unordered (FLEX, default) machine post-buffers, every DONE operation with a deterministic configured duration lasted at "
+         "least that duration and exactly that duration on a machine without outage configuration (durations_b) - proved by showing "
+         "every machine transition is applied exactly when due (provenance lifting: not early; clock invariant: not late) and that a "
+         "busy machine's PROCESSING record ends at occupied_till. For ordered post-buffers and stochastic durations: durations_b and "
+         "the event monitors ev_work/ev_due on every implementation state/transition (monitored). " + TIE),
  "C03": ("SM", "Theorems (Props/C03.v; SMP/WF, Preserve, StepInv, Reflect): every job is stored exactly once, every stored number is a "
          "job, locations name the holding buffer, flags agree with stores - preserved by EVERY applied transition with no side "
          "condition, hence in every reachable state and every micro-state under any action sequence, any fuel, any truncation setting "
